@@ -53,16 +53,20 @@ class Endpoint:
         if op == 'init':
             return conn.initiate_connection()
         if op == 'upg':
-            hdr = c.get('hdr')
-            if hdr == 'peer':
-                hdr = self.peer_upgrade_header
-            elif hdr == 'none' or hdr is None:
-                hdr = None
-            else:
-                hdr = hdr.encode('latin-1')
+            import base64
+            src = c.get('src', 'none')
+            hdr = None
+            if src == 'peer':
+                hdr = getattr(self, 'peer_upgrade_header', None)
+            elif src == 'lit':
+                body = b''.join(wire.struct.pack('>HI', i & 0xFFFF, absn.u32(v)) for i, v in c.get('s', []))
+                hdr = base64.urlsafe_b64encode(body)
             r = conn.initiate_upgrade_connection(hdr)
             self.upgrade_header = r
-            return None
+            if r is None:
+                return []
+            raw = base64.urlsafe_b64decode(r)
+            return [[int.from_bytes(raw[i:i + 2], 'big'), absn.i32(int.from_bytes(raw[i + 2:i + 6], 'big'))] for i in range(0, len(raw), 6)]
         if op == 'hdr':
             kw = {}
             pr = c.get('pr', [])
@@ -221,10 +225,21 @@ class Endpoint:
 
 
 def count_logical_frames(buf):
-    """Complete frames in an input buffer, a header block (HEADERS/PUSH_PROMISE + its CONTINUATIONs) counted once."""
+    """Complete frames in an input buffer, a header block (HEADERS/PUSH_PROMISE + its CONTINUATIONs) counted once; a client
+    preface found where a frame header is expected counts as one (the parser reads it as the header of a huge frame)."""
     n = 0
     open_block = False
-    for typ, fl, sid, payload in wire.split_frames(buf)[0]:
+    i = 0
+    while len(buf) - i >= 9:
+        if buf[i:i + len(wire.PREFACE)] == wire.PREFACE:
+            n += 1
+            i += len(wire.PREFACE)
+            continue
+        length = int.from_bytes(buf[i:i + 3], 'big')
+        if len(buf) - i - 9 < length:
+            break
+        typ, fl = buf[i + 3], buf[i + 4]
+        i += 9 + length
         if open_block and typ == wire.T_CONT:
             open_block = not (fl & wire.F_END_HEADERS)
             continue
@@ -329,7 +344,7 @@ class Session:
             try:
                 ret = ep.call(s['c'])
                 res = absn.exc_rec(None)
-                if s['c']['op'] in ('oin', 'oout', 'next'):
+                if s['c']['op'] in ('oin', 'oout', 'next', 'upg'):
                     res['v'] = ret
             except BaseException as e:
                 res = absn.exc_rec(e)
